@@ -10,7 +10,13 @@ Part A: theorems for ALL tables and ALL values, under the table facts `TableOK`/
 Part B: the table regenerated from the compiled /repo code on every run (`Gen.C18`) has these
 facts, so the Part A theorems hold of the compiled code in full (the two defects for which they
 used to be refuted on the generated table were repaired in /repo: b15f31a, 76d1c39).
-Part C: the genesis file. -/
+Part C: the genesis file.
+
+Value level (review round): save → load of the configuration is NOT the identity for every value
+(the YAML writer and reader disagree on some strings) and save → load of the genesis is not the
+identity for every `time.Time`/chain id (`encoding/json`): the full statements are kept as `def …_full`
+/ refuted by witnesses, the proved statements carry the explicit predicates `AllYamlSafe` (=
+`Yaml.YamlSafe` of every string option) and `GenesisEncodable`. -/
 namespace Spec.C18
 open Config
 
@@ -243,6 +249,12 @@ theorem C18_no_flag_ignored :
 compiled `Load` did for every registered flag when the facts were generated -/
 theorem C18_reaches_agrees : ∀ fl ∈ table.flags, fl.reaches = reached table fl := by decide
 
+/-- the key the compiled `bindFlags` binds a flag to (asked of viper after the real `bindFlags` ran
+with only this flag given) is the path of the option the flag NAMES by the property's naming rule
+(`Gen.C18.flagNames`: the name without `rollkit.`; the two declared aliases) -/
+theorem C18_bound_key_is_named_option :
+    ∀ fl ∈ table.flags, Gen.C18.flagNames.lookup fl.name = some fl.key := by decide
+
 /-- every option has a kind the correspondence stream generates values for -/
 theorem C18_kinds_supported :
     ∀ f ∈ table.fields, f.kind ∈ ["string", "bool", "int", "uint", "float", "duration"] := by decide
@@ -297,33 +309,75 @@ def cfgWith (k v : String) : String → String := fun go =>
 def loadedBack (go : String) (c : String → String) : Option (Loaded (String × Src)) :=
   (table.fields.find? (·.go = go)).map fun f => loadSaved table [] c (fun file => resolve table [] [] file f)
 
+/-- one option that does not come back refutes the identity -/
+theorem not_identity_of_loadedBack {c : String → String} {go : String} {r : Loaded (String × Src)}
+    (h : loadedBack go c = some r) (hnc : go ∉ nonConfigFields) (hr : r ≠ .ok (c go, .file)) :
+    ¬ SaveLoadIdentity table c := by
+  intro hid
+  unfold loadedBack at h
+  cases hf : table.fields.find? (·.go = go) with
+  | none => rw [hf] at h; cases h
+  | some f =>
+    rw [hf] at h
+    have hgo : f.go = go := by simpa using List.find?_some hf
+    have := hid f (List.mem_of_find?_eq_some hf) (hgo ▸ hnc)
+    simp only [Option.map_some, Option.some.injEq] at h
+    rw [this, hgo] at h
+    exact hr h.symm
+
 /-- KNOWN FINDING `saveload/numeric-looking-string-retyped`: `12e4` is written bare and read as a float -/
-theorem C18_save_load_fails_numeric : ¬ SaveLoadIdentity table (cfgWith "DA.Namespace" "12e4") := by decide
-example : loadedBack "DA.Namespace" (cfgWith "DA.Namespace" "12e4") = some (.ok ("120000", .file)) := by decide
-example : loadedBack "DA.Namespace" (cfgWith "DA.Namespace" ".inf") = some (.ok ("+Inf", .file)) := by decide
+theorem C18_back_numeric : loadedBack "DA.Namespace" (cfgWith "DA.Namespace" "12e4") = some (.ok ("120000", .file)) := by decide +kernel
+theorem C18_save_load_fails_numeric : ¬ SaveLoadIdentity table (cfgWith "DA.Namespace" "12e4") :=
+  not_identity_of_loadedBack C18_back_numeric (by decide) (by decide)
 /-- KNOWN FINDING `saveload/carriage-return-rewritten` -/
-theorem C18_save_load_fails_carriage_return : ¬ SaveLoadIdentity table (cfgWith "DA.Namespace" "cr\rlf") := by decide
-example : loadedBack "DA.Namespace" (cfgWith "DA.Namespace" "cr\rlf") = some (.ok ("cr\nlf", .file)) := by decide
-example : loadedBack "DA.Namespace" (cfgWith "DA.Namespace" "\r") = some (.ok ("", .file)) := by decide
+theorem C18_back_carriage_return : loadedBack "DA.Namespace" (cfgWith "DA.Namespace" "cr\rlf") = some (.ok ("cr\nlf", .file)) := by decide +kernel
+theorem C18_save_load_fails_carriage_return : ¬ SaveLoadIdentity table (cfgWith "DA.Namespace" "cr\rlf") :=
+  not_identity_of_loadedBack C18_back_carriage_return (by decide) (by decide)
 /-- KNOWN FINDING `saveload/file-unparsable-silently-ignored`: `?` written bare; the reader refuses
-the file, `Load` discards the error: EVERY option silently gets its default (here: another option) -/
-theorem C18_save_load_fails_unparsable : ¬ SaveLoadIdentity table (cfgWith "DA.Namespace" "?") := by decide
-example : loadedBack "ChainID" (fun go => if go = "ChainID" then "mychain" else cfgWith "DA.Namespace" "?" go)
-    = (table.fields.find? (·.go = "ChainID")).map (fun f => .ok (f.dflt, .dflt)) := by decide
+the file, `Load` discards the error: EVERY option silently gets its default -/
+theorem C18_back_unparsable' : loadedBack "DA.Namespace" (cfgWith "DA.Namespace" "?")
+      = (table.fields.find? (·.go = "DA.Namespace")).map (fun f => .ok (f.dflt, .dflt)) := by decide +kernel
+theorem C18_save_load_fails_unparsable : ¬ SaveLoadIdentity table (cfgWith "DA.Namespace" "?") := by
+  cases hf : table.fields.find? (·.go = "DA.Namespace") with
+  | none => exact absurd hf (by decide +kernel)
+  | some f =>
+    refine not_identity_of_loadedBack (C18_back_unparsable'.trans (by rw [hf]; rfl)) (by decide) ?_
+    intro h
+    injection h with h
+    have : (cfgWith "DA.Namespace" "?" "DA.Namespace", Src.file).2 = Src.dflt := by rw [← h]
+    cases this
 /-- KNOWN FINDING `saveload/control-character-file-unparsable-silently-ignored` -/
-theorem C18_save_load_fails_control : ¬ SaveLoadIdentity table (cfgWith "DA.Namespace" "a\x01b") := by decide
+theorem C18_back_control : loadedBack "DA.Namespace" (cfgWith "DA.Namespace" "a\x01b")
+      = (table.fields.find? (·.go = "DA.Namespace")).map (fun f => .ok (f.dflt, .dflt)) := by decide +kernel
 /-- KNOWN FINDING `saveload/radix-or-leading-zero-string-retyped` -/
-theorem C18_save_load_fails_radix : ¬ SaveLoadIdentity table (cfgWith "DA.Namespace" "0X1F") := by decide
-example : loadedBack "DA.Namespace" (cfgWith "DA.Namespace" "0X1F") = some (.ok ("31", .file)) := by decide
-example : loadedBack "DA.Namespace" (cfgWith "DA.Namespace" "0009") = some (.ok ("9", .file)) := by decide
+theorem C18_back_radix : loadedBack "DA.Namespace" (cfgWith "DA.Namespace" "0X1F") = some (.ok ("31", .file)) := by decide +kernel
+theorem C18_save_load_fails_radix : ¬ SaveLoadIdentity table (cfgWith "DA.Namespace" "0X1F") :=
+  not_identity_of_loadedBack C18_back_radix (by decide) (by decide)
 /-- KNOWN FINDING `saveload/date-like-string-refused`: the reader makes a `time.Time`, `Load` FAILS -/
-theorem C18_save_load_fails_date : ¬ SaveLoadIdentity table (cfgWith "DA.Namespace" "2001-1-1") := by decide
-example : loadedBack "DA.Namespace" (cfgWith "DA.Namespace" "2001-1-1") = some .error := by decide
+theorem C18_back_date : loadedBack "DA.Namespace" (cfgWith "DA.Namespace" "2001-1-1") = some .error := by decide +kernel
+theorem C18_save_load_fails_date : ¬ SaveLoadIdentity table (cfgWith "DA.Namespace" "2001-1-1") :=
+  not_identity_of_loadedBack C18_back_date (by decide) (by decide)
 /-- KNOWN FINDING `saveload/lone-newline-lost` -/
-theorem C18_save_load_fails_lone_newline : ¬ SaveLoadIdentity table (cfgWith "DA.Namespace" "\n") := by decide
+theorem C18_back_lone_newline : loadedBack "DA.Namespace" (cfgWith "DA.Namespace" "\n") = some (.ok ("", .file)) := by decide +kernel
+theorem C18_save_load_fails_lone_newline : ¬ SaveLoadIdentity table (cfgWith "DA.Namespace" "\n") :=
+  not_identity_of_loadedBack C18_back_lone_newline (by decide) (by decide)
+
+/-- the same classes at the value level (`Model/ConfigYaml.lean`), with their neighbours on the good side -/
+example : Yaml.roundTripS ".inf" = .retyped "+Inf".toList ∧ Yaml.roundTripS "-.INF" = .retyped "-Inf".toList ∧
+    Yaml.roundTripS ".NaN" = .retyped "NaN".toList ∧ Yaml.roundTripS ".Nan" = .same := by decide
+example : Yaml.roundTripS "\r" = .retyped [] ∧ Yaml.roundTripS "end\r" = .retyped "end\n".toList ∧
+    Yaml.roundTripS "a\r\r" = .retyped "a\n".toList ∧ Yaml.roundTripS "a\nb" = .same := by decide
+example : Yaml.roundTripS "0009" = .retyped "9".toList ∧ Yaml.roundTripS "-08" = .retyped "-8".toList ∧
+    Yaml.roundTripS "0o+17" = .retyped "15".toList ∧ Yaml.roundTripS "017" = .same ∧ Yaml.roundTripS "0x1F" = .same := by decide
+example : Yaml.roundTripS "5E-2" = .retyped "0.05".toList ∧ Yaml.roundTripS "1_0e1" = .retyped "100".toList ∧
+    Yaml.roundTripS "-0e1" = .retyped "-0".toList ∧ Yaml.roundTripS "1.5e3" = .same ∧ Yaml.roundTripS "_1e3" = .same := by decide
+example : Yaml.roundTripS "? a" = .fileBroken ∧ Yaml.roundTripS "?a" = .same ∧ Yaml.roundTripS "? #" = .same := by decide
+example : Yaml.roundTripS "2001-1-1" = .loadError ∧ Yaml.roundTripS "2001-13-1" = .same ∧ Yaml.roundTripS "2001-01-01" = .same := by decide
+example : Yaml.roundTripS "a\tb" = .same ∧ Yaml.roundTripS "\tb" = .unmodelled ∧ Yaml.roundTripS "a\r\nb" = .unmodelled := by decide
+example : Yaml.YamlSafe "plain" = true ∧ Yaml.YamlSafe "/ip4/0.0.0.0/tcp/7676" = true ∧ Yaml.YamlSafe "12e4" = false := by decide
 
 /-- the witnesses are configurations -/
-theorem C18_witness_well_typed : WellTyped table (cfgWith "DA.Namespace" "12e4") := by decide
+theorem C18_witness_well_typed : WellTyped table (cfgWith "DA.Namespace" "12e4") := by decide +kernel
 
 /-- **the full statement is false of the compiled code** -/
 theorem C18_save_load_full_fails : ¬ C18_save_load_full :=
@@ -332,7 +386,7 @@ theorem C18_save_load_full_fails : ¬ C18_save_load_full :=
 /-- the default configuration is well typed and all its strings are preserved by the YAML pair
 (re-checked against the compiled defaults on every run) -/
 theorem C18_defaults_yaml_safe :
-    WellTyped table (cfgWith "" "") ∧ AllYamlSafe table (cfgWith "" "") := by decide
+    WellTyped table (cfgWith "" "") ∧ AllYamlSafe table (cfgWith "" "") := by decide +kernel
 
 /-- **save → load identity, partial: for every configuration whose string options hold values the
 YAML writer/reader pair preserves** (`AllYamlSafe`, i.e. `Yaml.YamlSafe` of each) — every option of
@@ -453,68 +507,181 @@ theorem validate_refuses (g : Genesis) (r : Refusal) :
   cases hp : g.proposer <;> by_cases h1 : g.chainId = [] <;> by_cases h2 : g.initialHeight < 1 <;>
     cases h3 : g.time.isZero <;> cases r <;> simp [h1, h2] <;> omega
 
-/-- **A genesis written by the node loads back equal** (modulo the time location) … -/
-theorem genesis_load_save (g : Genesis) (h : validate g = none) : GenesisFile.load (save g) = .ok (normLoc g) := by
-  have hv : validate (parse (save g)) = validate g := rfl
-  unfold GenesisFile.load; rw [hv, h]; rfl
+/-! ### fields: what `encoding/json` preserves -/
+
+/-- `Save` succeeds exactly when RFC 3339 can print the time: year 0..9999 in the value's own zone,
+zone offset below 24 h -/
+theorem encode_ok_iff (g : Genesis) :
+    (∃ j, encode g = .ok j) ↔ (0 ≤ g.time.year ∧ g.time.year ≤ 9999 ∧ g.time.offSec.natAbs < 86400) := by
+  unfold encode encodeTime offMinutes
+  by_cases hy : g.time.year < 0 ∨ g.time.year > 9999
+  · have : (decide (g.time.year < 0) || decide (g.time.year > 9999)) = true := by
+      rcases hy with h | h <;> simp [h]
+    simp only [this, if_true]
+    constructor
+    · rintro ⟨j, hj⟩; cases hj
+    · intro ⟨h0, h1, _⟩; omega
+  · have hy' : (decide (g.time.year < 0) || decide (g.time.year > 9999)) = false := by
+      have h1 : ¬ g.time.year < 0 := fun h => hy (Or.inl h)
+      have h2 : ¬ g.time.year > 9999 := fun h => hy (Or.inr h)
+      simp [h1, h2]
+    simp only [hy', Bool.false_eq_true, if_false]
+    by_cases hz : (if g.time.offSec ≥ 0 then g.time.offSec / 60 else -(-g.time.offSec / 60)).natAbs / 60 ≥ 24
+    · simp only [hz, if_true]
+      constructor
+      · rintro ⟨j, hj⟩; cases hj
+      · intro ⟨_, _, h⟩; exfalso; split at hz <;> omega
+    · simp only [hz, if_false]
+      constructor
+      · intro _; refine ⟨by omega, by omega, ?_⟩; split at hz <;> omega
+      · intro _; exact ⟨_, rfl⟩
+
+/-- **the field-level codec is the identity (modulo the time location) on `GenesisEncodable`**:
+year 0..9999, zone offset of whole minutes below 24 h, chain id valid UTF-8 -/
+theorem genesis_fields_roundtrip (g : Genesis) (h : GenesisEncodable g = true) :
+    (encode g).map decodeDoc = .ok (normLoc g) := by
+  unfold GenesisEncodable at h
+  simp only [Bool.and_eq_true, decide_eq_true_eq, beq_iff_eq] at h
+  obtain ⟨⟨⟨⟨hy0, hy1⟩, hoff⟩, hmin⟩, hutf⟩ := h
+  have hs : sanitize g.chainId = g.chainId := by
+    unfold validUtf8 at hutf; exact eq_of_beq hutf
+  have hm : offMinutes g.time.offSec * 60 = g.time.offSec := by
+    unfold offMinutes; split <;> omega
+  have hnz : ¬ ((offMinutes g.time.offSec).natAbs / 60 ≥ 24) := by
+    unfold offMinutes; split <;> omega
+  unfold encode encodeTime
+  have hyr : (decide (g.time.year < 0) || decide (g.time.year > 9999)) = false := by
+    have h1 : ¬ g.time.year < 0 := by omega
+    have h2 : ¬ g.time.year > 9999 := by omega
+    simp [h1, h2]
+  simp only [hyr, Bool.false_eq_true, if_false, hnz, hs, hm]
+  rfl
+
+/-! ### text and disk -/
+
+/-- what `Save` to `p` followed by `LoadGenesis` from `p` gives, on the disk `d`, with the file writer `w` -/
+def saveThenLoad (w : Writer) (d : Disk) (p : Nat) (g : Genesis) : Except EncErr (Except LoadErr Genesis) :=
+  (saveWith w d p g).map (fun d' => loadAt d' p)
+
+/-- **Saving replaces what the path held.**  After a successful `Save g` (= `os.WriteFile`: create
+or truncate) the path holds exactly the bytes of `g`'s document — nothing of whatever (longer or
+shorter) file was there — so what loads back does not depend on the disk before. -/
+theorem genesis_save_replaces (d : Disk) (p : Nat) (g : Genesis) (j : JFile) (h : encode g = .ok j) :
+    saveAt d p g = .ok (writeTrunc d p (renderGenesis g)) ∧
+    (writeTrunc d p (renderGenesis g)).read p = some (renderGenesis g) ∧
+    saveThenLoad writeTrunc d p g = .ok (loadBytes (renderGenesis g)) := by
+  simp [saveAt, saveWith, saveThenLoad, h, writeTrunc, Disk.read, loadAt, Except.map]
+
+/-- … which is FALSE of a writer that does not truncate: a short genesis saved over a longer file
+leaves the tail of the old file behind, and `LoadGenesis` refuses the result (seeded change C18-B) -/
+def shortG : Genesis := { chainId := str "c", time := GoTime.ofUnix 1700000000 0 0 "", initialHeight := 1, proposer := some [] }
+def longG : Genesis := { shortG with chainId := str "a-rather-long-chain-id", proposer := some [1, 2, 3, 4, 5, 6, 7, 8] }
+
+theorem genesis_no_truncate_fails :
+    (saveWith writeNoTrunc [] 1 longG).bind (fun d => saveThenLoad writeNoTrunc d 1 shortG)
+      = .ok (.error .unparsable) := by decide +kernel
+/-- the truncating writer on the same two saves -/
+example : (saveAt [] 1 longG).bind (fun d => saveThenLoad writeTrunc d 1 shortG) = .ok (.ok (normLoc shortG)) := by decide +kernel
+/-- (the non-truncating writer is indistinguishable when the old file is not longer — why a test
+that re-saves equally long documents does not notice) -/
+theorem no_truncate_same_when_not_longer (d : Disk) (p : Nat) (bs : Bytes)
+    (h : ((d.lookup p).getD []).length ≤ bs.length) :
+    (writeNoTrunc d p bs).read p = (writeTrunc d p bs).read p := by
+  simp [writeNoTrunc, writeTrunc, Disk.read, List.drop_eq_nil_of_le h]
+
+/-- **A genesis written by the node loads back equal** (modulo the time location), whatever file
+the path held before — for every genesis `encoding/json` preserves (`GenesisEncodable`) that
+`Validate` accepts.  `TextRoundTrips g` (parser ∘ printer gives `g`'s document) is a decidable side
+condition on the text layer: it is evaluated, not proved, for every genesis — see its docstring. -/
+theorem genesis_load_save (d : Disk) (p : Nat) (g : Genesis) (he : GenesisEncodable g = true)
+    (ht : TextRoundTrips g = true) (hv : validate g = none) :
+    saveThenLoad writeTrunc d p g = .ok (.ok (normLoc g)) := by
+  have hf := genesis_fields_roundtrip g he
+  cases hj : encode g with
+  | error e => rw [hj] at hf; cases hf
+  | ok j =>
+    rw [hj] at hf
+    have hdec : decodeDoc j = normLoc g := by simpa [Except.map] using hf
+    have hparse : parse (renderGenesis g) = some j := by
+      unfold TextRoundTrips at ht; rw [hj] at ht; exact eq_of_beq ht
+    rw [(genesis_save_replaces d p g j hj).2.2]
+    have hval : validate (normLoc g) = none := hv
+    simp [loadBytes, hparse, hdec, hval]
 
 /-- … **and an invalid genesis is refused**, for the reason `Validate` gives -/
-theorem genesis_invalid_refused (g : Genesis) (r : Refusal) (h : validate g = some r) :
-    GenesisFile.load (save g) = .error r := by
-  have hv : validate (parse (save g)) = validate g := rfl
-  unfold GenesisFile.load; rw [hv, h]
+theorem genesis_invalid_refused (d : Disk) (p : Nat) (g : Genesis) (r : Refusal) (he : GenesisEncodable g = true)
+    (ht : TextRoundTrips g = true) (hv : validate g = some r) :
+    saveThenLoad writeTrunc d p g = .ok (.error (.refused r)) := by
+  have hf := genesis_fields_roundtrip g he
+  cases hj : encode g with
+  | error e => rw [hj] at hf; cases hf
+  | ok j =>
+    rw [hj] at hf
+    have hdec : decodeDoc j = normLoc g := by simpa [Except.map] using hf
+    have hparse : parse (renderGenesis g) = some j := by
+      unfold TextRoundTrips at ht; rw [hj] at ht; exact eq_of_beq ht
+    rw [(genesis_save_replaces d p g j hj).2.2]
+    have hval : validate (normLoc g) = some r := hv
+    simp [loadBytes, hparse, hdec, hval]
 
-/-- loading never yields an invalid genesis -/
-theorem genesis_loaded_is_valid (j : JFile) (g : Genesis) (h : GenesisFile.load j = .ok g) : validate g = none := by
-  unfold GenesisFile.load at h
-  cases hv : validate (parse j) with
-  | some r => rw [hv] at h; cases h
-  | none => rw [hv] at h; cases h; exact hv
-
-/-- **Saving replaces what the path held.**  Whatever files exist already (in particular a longer
-or a shorter genesis at the same path), after `Save g` to path `p` loading `p` gives exactly what
-loading a fresh file holding `g` gives: nothing of the earlier content survives. -/
-theorem genesis_save_replaces (d : Disk) (p : Nat) (g : Genesis) :
-    loadAt (saveAt d p g) p = loadAt (saveAt [] p g) p := by
-  simp [loadAt, saveAt]
-
-/-- a valid genesis saved over any existing file loads back equal (modulo the time location) -/
-theorem genesis_load_save_at (d : Disk) (p : Nat) (g : Genesis) (h : validate g = none) :
-    loadAt (saveAt d p g) p = .ok (normLoc g) := by
-  have := genesis_load_save g h
-  simp [loadAt, saveAt, this]
-
-/-- an invalid genesis saved over any existing (possibly valid) file is refused for its own reason -/
-theorem genesis_invalid_refused_at (d : Disk) (p : Nat) (g : Genesis) (r : Refusal) (h : validate g = some r) :
-    loadAt (saveAt d p g) p = .error (.refused r) := by
-  have := genesis_invalid_refused g r h
-  simp [loadAt, saveAt, this]
+/-- loading never yields an invalid genesis, whatever bytes the path holds -/
+theorem genesis_loaded_is_valid (bs : Bytes) (g : Genesis) (h : loadBytes bs = .ok g) : validate g = none := by
+  unfold loadBytes at h
+  cases hp : parse bs with
+  | none => rw [hp] at h; cases h
+  | some j =>
+    rw [hp] at h
+    simp only at h
+    cases hv : validate (decodeDoc j) with
+    | some r => rw [hv] at h; cases h
+    | none => rw [hv] at h; cases h; exact hv
 
 /-- saving to one path leaves every other path as it was -/
-theorem genesis_save_other_path (d : Disk) (p q : Nat) (g : Genesis) (hq : q ≠ p) :
-    loadAt (saveAt d p g) q = loadAt d q := by
-  have : (q == p) = false := by simpa using hq
-  simp [loadAt, saveAt, List.lookup, this]
+theorem genesis_save_other_path (d d' : Disk) (p q : Nat) (g : Genesis) (hq : q ≠ p)
+    (h : saveAt d p g = .ok d') : loadAt d' q = loadAt d q := by
+  have hb : (q == p) = false := by simpa using hq
+  unfold saveAt saveWith at h
+  cases hj : encode g with
+  | error e => rw [hj] at h; cases h
+  | ok j => rw [hj] at h; cases h; simp [loadAt, Disk.read, writeTrunc, List.lookup, hb]
 
-/-- saves to other paths, however many, leave a path as it was -/
-theorem genesis_saves_elsewhere (p : Nat) :
-    ∀ (later : List (Nat × Genesis)) (d : Disk), (∀ x ∈ later, x.1 ≠ p) →
-      loadAt (later.foldl (fun d x => saveAt d x.1 x.2) d) p = loadAt d p
-  | [], _, _ => rfl
-  | x :: rest, d, h => by
-    rw [List.foldl_cons, genesis_saves_elsewhere p rest _ fun y hy => h y (List.mem_cons_of_mem _ hy)]
-    exact genesis_save_other_path d x.1 p x.2 (h x List.mem_cons_self).symm
+/-- a `Save` that fails (year / zone hour) writes nothing: the disk is as it was -/
+theorem genesis_failed_save_writes_nothing (w : Writer) (d : Disk) (p : Nat) (g : Genesis) (e : EncErr)
+    (_h : encode g = .error e) : ∀ d', saveWith w d p g ≠ .ok d' := by
+  intro d' hd; unfold saveWith at hd; rw [_h] at hd; cases hd
 
-/-- what a path holds is what the LAST save to it put there, in every history of saves -/
-theorem genesis_last_save_wins (d : Disk) (p : Nat) (g : Genesis) (later : List (Nat × Genesis))
-    (h : ∀ x ∈ later, x.1 ≠ p) :
-    loadAt (later.foldl (fun d x => saveAt d x.1 x.2) (saveAt d p g)) p = loadAt (saveAt [] p g) p := by
-  rw [genesis_saves_elsewhere p later _ h]
-  exact genesis_save_replaces d p g
+/-! ### the excluded classes (witnesses: `genesis_load_save` is false there) -/
+
+def okG : Genesis := { chainId := str "c", time := GoTime.ofUnix 1700000000 5 0 "op", initialHeight := 1, proposer := some [7] }
+
+example : GenesisEncodable okG = true ∧ TextRoundTrips okG = true ∧ validate okG = none := by decide +kernel
+example : saveThenLoad writeTrunc [] 1 okG = .ok (.ok (normLoc okG)) := by decide +kernel
+
+/-- year 10000: `Save` fails -/
+theorem genesis_year_out_of_range_refused :
+    saveThenLoad writeTrunc [] 1 { okG with time := GoTime.ofUnix 253402300800 0 0 "op" } = .error .yearRange := by decide +kernel
+/-- year 9999 UTC, year 10000 in the value's zone (+01:00): `Save` fails -/
+example : saveThenLoad writeTrunc [] 1 { okG with time := GoTime.ofUnix 253402300799 0 3600 "op" } = .error .yearRange := by decide +kernel
+/-- zone offset of 24 h: `Save` fails -/
+theorem genesis_zone_hour_refused :
+    saveThenLoad writeTrunc [] 1 { okG with time := GoTime.ofUnix 1700000000 0 86400 "op" } = .error .zoneHour := by decide +kernel
+/-- zone offset with seconds: the file keeps the wall clock and cuts the offset to minutes — the
+instant that loads back is 30 s LATER than the one saved -/
+theorem genesis_zone_seconds_shift :
+    (saveThenLoad writeTrunc [] 1 { okG with time := GoTime.ofUnix 1700000000 0 30 "op" }).map
+      (fun r => r.map (fun g => (g.time.unix, g.time.offSec))) = .ok (.ok (1700000030, 0)) := by decide +kernel
+/-- … so the zero time in such a zone, which `Validate` refuses, is ACCEPTED after save → load -/
+theorem genesis_zero_time_in_seconds_zone_accepted :
+    validate { okG with time := GoTime.ofUnix zeroUnix 0 30 "op" } = some .daStartTime ∧
+    (saveThenLoad writeTrunc [] 1 { okG with time := GoTime.ofUnix zeroUnix 0 30 "op" }).map
+      (fun r => r.map (fun g => g.time.unix)) = .ok (.ok (zeroUnix + 30)) := by decide +kernel
+/-- chain id that is not valid UTF-8: the offending byte comes back as U+FFFD -/
+theorem genesis_invalid_utf8_replaced :
+    (saveThenLoad writeTrunc [] 1 { okG with chainId := [0x61, 0xFF, 0x62] }).map
+      (fun r => r.map (·.chainId)) = .ok (.ok [0x61, 0xEF, 0xBF, 0xBD, 0x62]) := by decide +kernel
 
 example : loadAt [] 1 = .error .noFile := rfl
-
-example : validate { chainId := [1], time := ⟨0, 0, 0, "UTC"⟩, initialHeight := 1, proposer := some [] } = none := by decide
-example : validate { chainId := [1], time := ⟨zeroUnix, 0, 60, "CET"⟩, initialHeight := 1, proposer := some [] } = some .daStartTime := by decide
+example : validate okG = none := by decide +kernel
+example : validate { okG with time := GoTime.ofUnix zeroUnix 0 3600 "CET" } = some .daStartTime := by decide +kernel
 
 end Spec.C18
